@@ -227,7 +227,7 @@ def samplers_from_shared_inputs_are_independent(h, cls):
     h.same("the other sampler's length unchanged", b.chain_length, 1)
 
 
-@unit("C03", quick=[dict(N=2, cp=4)], thorough=[dict(N=3, cp=2)], max_paths=20000, cost=5)
+@unit("C03", quick=[dict(N=2, cp=4), dict(N=3, cp=2)], thorough=[dict(N=3, cp=5)], max_paths=20000, cost=5)
 def points_installed_by_a_tempering_exchange_carry_their_own_log_probability(h, N, cp):
     """a parallel-tempering exchange installs the partner's point as the last recorded sample of a chain: afterwards the
     chain's last recorded log-probability must be the log-density of *that* point divided by the receiving chain's
